@@ -90,7 +90,11 @@ def gen_ovr(y0, y1, ks):
                 d, h, mi, s = 1 + (kk % 28), (kk * 7) % 24, (kk * 11) % 60, (kk * 13) % 60
                 ev = {"k": "ovr", "y": y, "m": m, "d": d, "h": h, "mi": mi, "s": s, "kk": kk}
                 try:
-                    eu = Epoch(y, m, d, h, mi, s, leap_seconds=kk)
+                    # the override alone, or together with utc=True (which it implies): the same instant either way
+                    if (y + m + kk) % 2:
+                        eu = Epoch(y, m, d, h, mi, s, leap_seconds=kk)
+                    else:
+                        eu = Epoch(y, m, d, h, mi, s, utc=True, leap_seconds=kk)
                     en = Epoch(y, m, d, h, mi, s)
                     ev["ju"], ev["jn"] = fx(eu.jde()), fx(en.jde())
                     ev["rb"], ev["rbs"] = _readback(eu, leap_seconds=kk)
